@@ -5,6 +5,7 @@ from .. import bounds as B
 from .. import ordtype as O
 from .. import prange as PR
 from .. import small
+from .. import dispatch
 from ..loader import AnalysisError, norm_stmt
 
 EST = "variogram/estimator.pyx"
@@ -43,12 +44,177 @@ def _diff_reads(value):
     return None
 
 
+def nan_guard(ctx, rule="R08.3"):
+    """pair kernels: a pair is accumulated iff NEITHER of the two differenced values is NaN (the kernels' skip value)"""
+    prog = ctx.prog
+    for k in ("unstructured", "directional"):
+        fn = prog.func(EST, k)
+        site = "%s::%s" % (EST, k)
+        pairs, _ = _accumulations(fn)
+        if not pairs:
+            raise AnalysisError("no accumulation statements found in %s" % site)
+        # R08.3 NaN guard on both operands, same condition for count and value
+        for cnt, val in pairs:
+            ctx.check(ast.unparse(cnt.target.slice) == ast.unparse(val.target.slice) and ast.unparse(cnt.value) == "1", rule, site,
+                      "count and value are accumulated into the same bin index (%s) with count increment 1" % ast.unparse(cnt.target.slice), "same-index")
+            rd = _diff_reads(val.value)
+            if not rd:
+                ctx.violation(rule, site, "value update is not estimator(f[m,a] - f[m,b]): %s" % norm_stmt(val), "diff-shape")
+                continue
+            pc = O.path_condition(fn, cnt)
+            atoms = ["isnan(%s)" % ast.unparse(rd[0]), "isnan(%s)" % ast.unparse(rd[1])]
+            nan_conj = [(e, p) for e, p in pc if "isnan" in ast.unparse(e)]
+            tested = {ast.unparse(n) for e, _ in nan_conj for n in ast.walk(e) if isinstance(n, ast.Call) and ast.unparse(n.func) == "isnan"}
+            if tested - set(atoms):
+                ctx.violation(rule, site, "missing-value guard tests %s, which are not the differenced values %s" % (sorted(tested - set(atoms)), atoms), "nan-cells")
+                continue
+            try:
+                tab = O.conj_table(nan_conj, atoms) if nan_conj else "TTTT"
+            except O.NotOrd as ex:
+                ctx.undecided(rule, site, "NaN guard not decomposable over %s: %s" % (atoms, ex))
+                continue
+            ctx.check(tab == "TFFF", rule, site,
+                      "missing-value guard over (%s, %s) in {F,T}^2 is %s; a pair counts only if neither value is NaN (TFFF)" % (atoms[0], atoms[1], tab), "nan-table")
+            ctx.check(ast.unparse(PR.index_elts(rd[0])[0]) == ast.unparse(PR.index_elts(rd[1])[0]), rule, site,
+                      "both differenced values come from the same field row", "same-field")
+
+
+
+def mask_guard(ctx, rule="R08.3"):
+    """ma_structured: a pair is accumulated iff BOTH of its cells are unmasked (truth table of the guard, whatever its spelling)."""
+    prog = ctx.prog
+    fn = prog.func(EST, "ma_structured")
+    site = "%s::%s" % (EST, "ma_structured")
+    pairs, _ = _accumulations(fn)
+    if len(pairs) != 1:
+        raise AnalysisError("expected one accumulation pair in %s" % site)
+    cnt, val = pairs[0]
+    rd = _diff_reads(val.value)
+    if not rd:
+        raise AnalysisError("anchor vanished: differenced cells in %s" % site)
+    pc = O.path_condition(fn, cnt)
+    cells = [ast.unparse(r).replace("f[", "mask[", 1) for r in rd]
+    mconj = [(e, p) for e, p in pc if "mask" in ast.unparse(e)]
+    reads = {ast.unparse(n) for e, _ in mconj for n in ast.walk(e) if isinstance(n, ast.Subscript) and PR.base_name(n) == "mask"}
+    if reads - set(cells):
+        ctx.violation(rule, site, "mask guard tests %s, which are not the differenced cells %s" % (sorted(reads - set(cells)), cells), "mask-cells")
+    else:
+        # truth table of "the pair is accumulated" over (cell a masked, cell b masked), whatever the spelling of the guard
+        def truth(e, m):
+            t = ast.unparse(e)
+            if t in m:
+                return m[t]
+            if isinstance(e, ast.UnaryOp) and isinstance(e.op, ast.Not):
+                return not truth(e.operand, m)
+            if isinstance(e, ast.BoolOp):
+                vs = [truth(v, m) for v in e.values]
+                return all(vs) if isinstance(e.op, ast.And) else any(vs)
+            if isinstance(e, ast.Compare) and len(e.ops) == 1 and ast.unparse(e.left) in m and isinstance(e.comparators[0], ast.Constant) and e.comparators[0].value in (0, 1, True, False):
+                v = m[ast.unparse(e.left)]
+                c = bool(e.comparators[0].value)
+                if isinstance(e.ops[0], ast.Eq):
+                    return v == c
+                if isinstance(e.ops[0], ast.NotEq):
+                    return v != c
+            raise O.NotOrd("guard term %s" % t)
+
+        try:
+            tab = ""
+            for ma in (True, False):
+                for mb in (True, False):
+                    m = {cells[0]: ma, cells[1]: mb}
+                    tab += "T" if all(truth(e, m) == pol for e, pol in mconj) else "F"
+        except O.NotOrd as ex:
+            tab = "?"
+            ctx.undecided(rule, site, "mask guard not decomposable over %s: %s" % (cells, ex))
+        if tab != "?":
+            ctx.check(tab == "FFFT", rule, site,
+                      "accumulation over (%s masked, %s masked) = TT,TF,FT,FF is %s; a pair counts only if both cells are unmasked (FFFT)" % (cells[0], cells[1], tab), "mask-table")
+
+
+WRAPPERS = {"_directional": "directional", "_unstructured": "unstructured", "_structured": "structured", "_ma_structured": "ma_structured"}
+MODE_PARAMS = ("estimator_type", "distance_type")
+
+
+def _bind_call(call, callee):
+    """{parameter name: argument node} of a call against the callee's signature (positional + keyword; defaults are NOT filled in)"""
+    params = [a.arg for a in callee.args.posonlyargs + callee.args.args]
+    out = {}
+    for p_, a_ in zip(params, call.args):
+        if isinstance(a_, ast.Starred):
+            return None
+        out[p_] = a_
+    for k in call.keywords:
+        if k.arg is None:
+            return None
+        out[k.arg] = k.value
+    return out
+
+
+def estimator_forwarded(ctx, rule="R08.10"):
+    """The estimator the caller names must be the one the kernel accumulates with: every call of a kernel wrapper passes
+    estimator_type explicitly, and it is `_set_estimator(estimator)`; every wrapper hands its own estimator_type / distance_type to the
+    kernel at the position the kernel declares for it (a dropped argument silently selects the default 'm')."""
+    prog = ctx.prog
+    mod = prog.mod(VAR)
+    n = 0
+    for q, fn in sorted(mod.functions.items()):
+        if q in WRAPPERS:
+            continue
+        for st in [x for x in ast.walk(fn) if isinstance(x, ast.stmt)]:
+            for call in [c for c in ast.walk(st) if isinstance(c, ast.Call) and isinstance(c.func, ast.Name) and c.func.id in WRAPPERS]:
+                if any(call in ast.walk(sub) for blk in ("body", "orelse", "finalbody") for sub in (getattr(st, blk, None) or []) if isinstance(sub, ast.stmt)):
+                    continue  # reported at the innermost statement
+                site = "%s::%s" % (VAR, q)
+                bound = _bind_call(call, mod.functions[call.func.id])
+                if bound is None:
+                    ctx.undecided(rule, site, "call of %s uses * / ** arguments" % call.func.id)
+                    continue
+                n += 1
+                arg = bound.get("estimator_type")
+                if arg is None:
+                    ctx.violation(rule, site, "%s is called without estimator_type: the default 'm' (Matheron) is used whatever estimator the caller named" % call.func.id, "dropped:%s" % call.func.id)
+                    continue
+                env = small.sym_eval(fn.body, stop=st)
+                val = small.sym_text(small._sym_subst(arg, env))
+                ctx.check(val == "_set_estimator(estimator)", rule, site, "%s receives estimator_type = %s" % (call.func.id, val), "estimator:%s" % call.func.id)
+    ctx.floor(rule, "kernel wrapper call sites", n, 4)
+    for w, kern in sorted(WRAPPERS.items()):
+        fn = mod.functions.get(w)
+        if fn is None:
+            raise AnalysisError("anchor vanished: wrapper %s" % w)
+        kfn = prog.func(EST, kern)
+        site = "%s::%s" % (VAR, w)
+        rets = [r for r in ast.walk(fn) if isinstance(r, ast.Return) and isinstance(r.value, ast.Call)]
+        if len(rets) != 1:
+            ctx.undecided(rule, site, "wrapper no longer ends in a single kernel call")
+            continue
+        bound = _bind_call(rets[0].value, kfn)
+        env = small.sym_eval(fn.body, stop=rets[0])
+        for mp in MODE_PARAMS:
+            if mp not in [a.arg for a in kfn.args.args]:
+                continue
+            val = small.sym_text(small._sym_subst(bound[mp], env)) if bound and mp in bound else "<default>"
+            ctx.check(val == mp, rule, site, "the kernel's %s is the wrapper's own %s parameter (got %s)" % (mp, mp, val), "forward:%s" % mp)
+        dfl = dict(zip([a.arg for a in fn.args.args][len(fn.args.args) - len(fn.args.defaults):], [ast.unparse(d) for d in fn.args.defaults]))
+        kdf = dict(zip([a.arg for a in kfn.args.args][len(kfn.args.args) - len(kfn.args.defaults):], [ast.unparse(d) for d in kfn.args.defaults]))
+        for mp in MODE_PARAMS:
+            if mp in dfl:
+                ctx.check(dfl[mp] == kdf.get(mp), rule, site, "default of %s agrees between wrapper (%s) and kernel (%s)" % (mp, dfl[mp], kdf.get(mp)), "default:%s" % mp)
+
+
 def run(ctx):
+    estimator_forwarded(ctx)
     from . import C15_kernels as _K
 
     _K.int_division(ctx, rule="R08.9")  # normalisation by the pair count must be a floating-point division (cdivision=True)
     _K.accumulator_reset(ctx, rule="R08.9")
     _K.zero_init(ctx, rule="R08.9")
+    _K.full_extent(ctx, rule="R08.9")  # every field row / point pair is visited
+    from . import C15_bounds
+
+    C15_bounds.run(ctx, rule="R08.9", files=("variogram/estimator.pyx",), floor=30)  # a transposed or out-of-range index pairs other values than the estimator is defined over
+    _K.double_precision(ctx, rule="R08.9")  # single-precision accumulators / phases lose the exactness the property states
     from .C09 import ang2dir_rule
 
     ang2dir_rule(ctx, rule="R08.8")  # the search direction built from `angles=` (shared with C09)
@@ -136,30 +302,7 @@ def run(ctx):
             )
             detail = "outer %s in [%r, %r], inner %s in [%r, %r] with n = pos.shape[1]" % (outer, olo, ohi, inner, ilo, ihi)
         ctx.check(ok, "R08.2", site, "pair loops enumerate each unordered pair {a<b} exactly once: " + detail, "pair-loops")
-        # R08.3 NaN guard on both operands, same condition for count and value
-        for cnt, val in pairs:
-            ctx.check(ast.unparse(cnt.target.slice) == ast.unparse(val.target.slice) and ast.unparse(cnt.value) == "1", "R08.3", site,
-                      "count and value are accumulated into the same bin index (%s) with count increment 1" % ast.unparse(cnt.target.slice), "same-index")
-            rd = _diff_reads(val.value)
-            if not rd:
-                ctx.violation("R08.3", site, "value update is not estimator(f[m,a] - f[m,b]): %s" % norm_stmt(val), "diff-shape")
-                continue
-            pc = O.path_condition(fn, cnt)
-            atoms = ["isnan(%s)" % ast.unparse(rd[0]), "isnan(%s)" % ast.unparse(rd[1])]
-            nan_conj = [(e, p) for e, p in pc if "isnan" in ast.unparse(e)]
-            tested = {ast.unparse(n) for e, _ in nan_conj for n in ast.walk(e) if isinstance(n, ast.Call) and ast.unparse(n.func) == "isnan"}
-            if tested - set(atoms):
-                ctx.violation("R08.3", site, "missing-value guard tests %s, which are not the differenced values %s" % (sorted(tested - set(atoms)), atoms), "nan-cells")
-                continue
-            try:
-                tab = O.conj_table(nan_conj, atoms) if nan_conj else "TTTT"
-            except O.NotOrd as ex:
-                ctx.undecided("R08.3", site, "NaN guard not decomposable over %s: %s" % (atoms, ex))
-                continue
-            ctx.check(tab == "TFFF", "R08.3", site,
-                      "missing-value guard over (%s, %s) in {F,T}^2 is %s; a pair counts only if neither value is NaN (TFFF)" % (atoms[0], atoms[1], tab), "nan-table")
-            ctx.check(ast.unparse(PR.index_elts(rd[0])[0]) == ast.unparse(PR.index_elts(rd[1])[0]), "R08.3", site,
-                      "both differenced values come from the same field row", "same-field")
+    nan_guard(ctx, rule="R08.3")
 
     # ---------------------------------------------------------------- structured kernels
     for k in ("structured", "ma_structured"):
@@ -200,24 +343,7 @@ def run(ctx):
                   "count and value accumulate into the same lag bin", "same-index")
         pc = O.path_condition(fn, cnt)
         if k == "ma_structured":
-            if rd:
-                atoms = [ast.unparse(r).replace("f[", "mask[", 1) + " == 0" for r in rd]
-                mconj = [(e, p) for e, p in pc if "mask" in ast.unparse(e)]
-                tested = {ast.unparse(n) for e, _ in mconj for n in ast.walk(e) if isinstance(n, ast.Compare) and "mask[" in ast.unparse(n)}
-                if tested - set(atoms):
-                    ctx.violation("R08.3", site, "mask guard tests %s, which are not the differenced cells %s" % (sorted(tested - set(atoms)), atoms), "mask-cells")
-                    mconj = None
-                try:
-                    if mconj is None:
-                        raise O.NotOrd("other cells")
-                    tab = O.conj_table(mconj, atoms) if mconj else "TTTT"
-                except O.NotOrd as ex:
-                    tab = "?"
-                    if mconj is not None:
-                        ctx.undecided("R08.3", site, "mask guard not decomposable over %s: %s" % (atoms, ex))
-                if tab != "?":
-                    ctx.check(tab == "FFFT", "R08.3", site,
-                              "mask guard over (%s, %s) is %s; a pair counts only if both cells are unmasked (FFFT)" % (atoms[0], atoms[1], tab), "mask-table")
+            mask_guard(ctx, rule="R08.3")
         else:
             ctx.check(not pc, "R08.3", site, "unmasked axis kernel accumulates unconditionally (missing values are excluded by the wrapper, below)", "uncond")
 
@@ -306,13 +432,16 @@ def run(ctx):
                   "'%s' -> %s, otherwise -> %s" % (key, then, els), "dispatch")
     ctx.check(len(set(fam.values())) == 1 and len(fam) == 3, "R08.4", EST, "the three dispatchers map the same key to the same estimator family", "dispatch-agree")
     se = prog.func(VAR, "_set_estimator")
-    emitted = sorted({n.value.value for n in ast.walk(se) if isinstance(n, ast.Assign) and isinstance(n.value, ast.Constant)})
-    tests = {}
-    for n in ast.walk(se):
-        if isinstance(n, ast.If) and isinstance(n.test, ast.Compare):
-            tests[ast.literal_eval(n.test.comparators[0])] = n.body[0].value.value if isinstance(n.body[0], ast.Assign) and isinstance(n.body[0].value, ast.Constant) else None
-    ctx.check(tests == {"matheron": "m", "cressie": "c"} and emitted == ["c", "m"], "R08.4", VAR + "::_set_estimator",
-              "verbose names map to the keys the kernels test: %s; anything else raises" % tests, "set-estimator")
+    tables = dispatch.module_tables(prog.mod(VAR).tree)
+    got = {}
+    try:
+        for key in ("matheron", "Matheron", "MATHERON", "cressie", "Cressie", "m", "c", "", "matheron ", "hodges"):
+            got[key] = dispatch.select(se, se.args.args[0].arg, key, tables, want="value")
+    except dispatch.DispatchError as e:
+        raise AnalysisError("_set_estimator is not interpretable as a key translation: %s" % e)
+    want_map = {"matheron": "m", "Matheron": "m", "MATHERON": "m", "cressie": "c", "Cressie": "c", "m": "<raise>", "c": "<raise>", "": "<raise>", "matheron ": "<raise>", "hodges": "<raise>"}
+    ctx.check(got == want_map, "R08.4", VAR + "::_set_estimator",
+              "verbose names (any case) map to the keys the kernels test, anything else raises (interpreted for %d sample names): %s" % (len(got), {k: v for k, v in got.items() if want_map[k] != v} or "as specified"), "set-estimator")
     ctx.check(any(isinstance(s, ast.Raise) for s in ast.walk(se)), "R08.4", VAR + "::_set_estimator", "unknown estimator raises", "raise")
     # each kernel uses estimator_func and normalisation of the same estimator_type
     for k, fn in kernels.items():
